@@ -25,33 +25,20 @@ Record state := {
   frames : list frame;
   vectors : list (list value);
   out : list char;          (* stdout, in order *)
-  ticks : list Z;           (* trace of the harness's tick procedure *)
-  depth : nat;              (* nesting of the evaluator's Rust calls (hook counter) *)
-  maxdepth : nat
+  ticks : list Z            (* trace of the harness's tick procedure *)
 }.
 
 Definition empty_state : state :=
-  {| frames := []; vectors := []; out := []; ticks := []; depth := 0; maxdepth := 0 |}.
+  {| frames := []; vectors := []; out := []; ticks := [] |}.
 
 Definition set_frames (st : state) (fs : list frame) : state :=
-  {| frames := fs; vectors := vectors st; out := out st; ticks := ticks st;
-     depth := depth st; maxdepth := maxdepth st |}.
+  {| frames := fs; vectors := vectors st; out := out st; ticks := ticks st |}.
 Definition set_vectors (st : state) (vs : list (list value)) : state :=
-  {| frames := frames st; vectors := vs; out := out st; ticks := ticks st;
-     depth := depth st; maxdepth := maxdepth st |}.
+  {| frames := frames st; vectors := vs; out := out st; ticks := ticks st |}.
 Definition add_out (st : state) (s : list char) : state :=
-  {| frames := frames st; vectors := vectors st; out := out st ++ s; ticks := ticks st;
-     depth := depth st; maxdepth := maxdepth st |}.
+  {| frames := frames st; vectors := vectors st; out := out st ++ s; ticks := ticks st |}.
 Definition add_tick (st : state) (z : Z) : state :=
-  {| frames := frames st; vectors := vectors st; out := out st; ticks := ticks st ++ [z];
-     depth := depth st; maxdepth := maxdepth st |}.
-Definition enter (st : state) : state :=
-  {| frames := frames st; vectors := vectors st; out := out st; ticks := ticks st;
-     depth := S (depth st); maxdepth := Nat.max (maxdepth st) (S (depth st)) |}.
-Definition leave (st : state) : state :=
-  {| frames := frames st; vectors := vectors st; out := out st; ticks := ticks st;
-     depth := pred (depth st); maxdepth := maxdepth st |}.
-
+  {| frames := frames st; vectors := vectors st; out := out st; ticks := ticks st ++ [z] |}.
 (** association lists with HashMap::insert semantics *)
 Fixpoint alist_get {A} (l : list (str * A)) (x : str) : option A :=
   match l with
